@@ -1,5 +1,6 @@
 import Martian.Lemmas.H2Relay
 import Martian.Generated.H2Relay
+import Martian.Props.C08.Hpack
 /-!
 C08 — HTTP/2 relay delivers each stream's frames faithfully for any framing and order.
 
@@ -56,6 +57,7 @@ whole header block, the opening frame's END_STREAM, priority and promised id. -/
 def FUnit.call : FUnit → Call
   | .single (.data sid es payload pad) => .data sid (flowLen payload pad) payload es
   | .single (.headers sid es _ prio frag) => .header sid frag es (prio.getD Prio.zero)
+  | .single (.headersRep sid es prio reps) => .headerRep sid reps es (prio.getD Prio.zero)
   | .single (.pushPromise sid promised _ frag) => .pushPromise sid promised frag
   | .single (.continuation ..) => .nilContinuation
   | .single (.priority sid p) => .priority sid p
